@@ -87,6 +87,16 @@ func flErr(err error) string {
 	return "other:" + strings.ReplaceAll(err.Error(), " ", "_")
 }
 
+func dfErr(err error) string {
+	switch {
+	case err == wsflate.ErrUnexpectedCompressionBit:
+		return "bit"
+	case strings.Contains(err.Error(), "fragmented"):
+		return "fragmented"
+	}
+	return "codec"
+}
+
 type passDec struct{ r io.Reader }
 
 func (d passDec) Read(p []byte) (int, error) { return d.r.Read(p) }
@@ -398,6 +408,23 @@ func init() {
 		dfr, derr := wsflate.DecompressFrame(ws.Frame{Header: cfr.Header, Payload: append([]byte(nil), cfr.Payload...)})
 		return fmt.Sprintf("cerr=nil chdr=%s cpay=%s derr=%s dhdr=%s dpay=%s", hdrStr(cfr.Header), hx(cfr.Payload), flErr(derr), hdrStr(dfr.Header), hx(dfr.Payload))
 	}
+	// df <fin> <rsv> <op> <payloadhex>: DecompressFrame on its own (a frame from the wire; the payload is what an
+	// independent encoder made of <payloadhex> when the compression bit is set, <payloadhex> itself otherwise)
+	ops["df"] = func(a []string) string {
+		rsv, _ := strconv.Atoi(a[1])
+		op, _ := strconv.Atoi(a[2])
+		plain := unhx(a[3])
+		wire := plain
+		if rsv&4 != 0 {
+			wire = encFixed(plain, false)
+		}
+		h := ws.Header{Fin: a[0] == "1", Rsv: byte(rsv), OpCode: ws.OpCode(op), Length: int64(len(wire))}
+		dfr, derr := wsflate.DecompressFrame(ws.Frame{Header: h, Payload: append([]byte(nil), wire...)})
+		if derr != nil {
+			return fmt.Sprintf("derr=%s wire=%s", dfErr(derr), hx(wire))
+		}
+		return fmt.Sprintf("derr=nil wire=%s dhdr=%s dpay=%s", hx(wire), hdrStr(dfr.Header), hx(dfr.Payload))
+	}
 	ops["badc"] = func(a []string) string {
 		h := wsflate.Helper{
 			Compressor: func(w io.Writer) wsflate.Compressor {
@@ -419,6 +446,7 @@ func init() {
 	register("C12", genC12)
 	register("C12", genReaderReuse)
 	register("C12", genWriterReuse)
+	register("C12", genFrameHelpers)
 	register("C18", genWriterReuse)
 	register("C18", genReaderReuse)
 }
@@ -549,6 +577,22 @@ func genC12(tier string, r *rng) {
 	for _, m := range []string{"notail", "wrongtail", "shorttail", "good"} {
 		for _, p := range [][]byte{{}, {1, 2, 3}, {0, 0, 0xff, 0xff}, r.bytes(20)} {
 			run(fmt.Sprintf("badc %s %s", m, hx(p)))
+		}
+	}
+}
+
+// genFrameHelpers: DecompressFrame on every frame kind x bits x final/non-final.
+func genFrameHelpers(tier string, r *rng) {
+	for _, p := range [][]byte{nil, []byte("a"), []byte("hello hello"), r.bytes(40)} {
+		for _, fin := range []string{"1", "0"} {
+			for rsv := 0; rsv < 8; rsv++ {
+				for _, op := range []int{0, 1, 2, 8, 9, 10} {
+					if op >= 8 && len(p) > 20 {
+						continue
+					}
+					run(fmt.Sprintf("df %s %d %d %s", fin, rsv, op, hx(p)))
+				}
+			}
 		}
 	}
 }
